@@ -17,21 +17,36 @@ type RawFrame = wire.Raw
 // Run executes the scenario inside the current synctest bubble and returns the
 // log. It must be called from within synctest.Test.
 func Run(sc Scenario) *tr.Log {
+	log, _ := RunCount(sc)
+	return log
+}
+
+// RunCount is Run, also returning the number of policy steps executed.
+func RunCount(sc Scenario) (*tr.Log, int) {
 	grpctunnel.VerifForget()
 	s := NewSession(sc.Cfg)
 	s.installHooks()
 	defer uninstallHooks()
-	meta := sc.Meta
-	if meta == nil {
-		meta = map[string]any{}
+	meta := map[string]any{"_": 0}
+	for k, v := range sc.Meta {
+		meta[k] = v
 	}
-	meta["_"] = 0
 	s.emit("scenario", tr.E{"name": sc.Name, "meta": meta})
-	for k, st := range sc.Steps {
+	k := 0
+	for _, st := range sc.Steps {
 		s.step(k, st)
+		k++
+	}
+	n := 0
+	if sc.Policy != nil {
+		n = s.runPolicy(&sc, &k)
+		if !sc.Policy.NoDrain {
+			s.step(k, Step{Do: "drain"})
+			k++
+		}
 	}
 	s.teardown()
-	return s.Log
+	return s.Log, n
 }
 
 func (s *Session) step(k int, st Step) {
